@@ -119,22 +119,21 @@ var rdCtxs = []rdCtx{
 	{"RRSIG", 46, append([]byte{0, 1, 8, 2}, make([]byte, 14)...), []byte("sig"), false},
 }
 
-func generate(thorough bool) []kase {
-	var out []kase
+func generate(thorough bool, emit func(kase)) {
 	maxTok := 4
 	if thorough {
 		maxTok = 5
 	}
 	// (i) hostile names in every name position
 	nameStrings(12, maxTok+1, func(desc string, nb []byte) { // question position (one token more: it is the cheapest context)
-		out = append(out, kase{Family: "name:question", Desc: desc, Msg: append(append(hdr(1, 0, 0, 0), nb...), 0, 1, 0, 1)})
+		emit(kase{Family: "name:question", Desc: desc, Msg: append(append(hdr(1, 0, 0, 0), nb...), 0, 1, 0, 1)})
 	})
 	base := 12 + len(qA)
 	nameStrings(base, maxTok, func(desc string, nb []byte) {
 		m := append(hdr(1, 1, 0, 0), qA...)
 		m = append(m, nb...)
 		m = append(m, rrFixed(1, 60, 4)...)
-		out = append(out, kase{Family: "name:owner", Desc: desc, Msg: append(m, 192, 0, 2, 1)})
+		emit(kase{Family: "name:owner", Desc: desc, Msg: append(m, 192, 0, 2, 1)})
 	})
 	for _, c := range rdCtxs {
 		c := c
@@ -155,7 +154,7 @@ func generate(thorough bool) []kase {
 				m := append(hdr(1, 1, 0, 0), qA...)
 				m = append(m, 0xc0, 12)
 				m = append(m, rrFixed(c.typ, 60, len(rd)+d)...)
-				out = append(out, kase{Family: "name:rdata:" + c.name, Desc: fmt.Sprintf("%s rdlen%+d", desc, d), Msg: append(m, rd...)})
+				emit(kase{Family: "name:rdata:" + c.name, Desc: fmt.Sprintf("%s rdlen%+d", desc, d), Msg: append(m, rd...)})
 			}
 		})
 	}
@@ -177,7 +176,7 @@ func generate(thorough bool) []kase {
 				m = append(m, 0xc0|byte(entry>>8), byte(entry))
 				m = append(m, rrFixed(1, 1, 4)...)
 				m = append(m, 9, 9, 9, 9)
-				out = append(out, kase{Family: "name:via-opaque-region", Desc: fmt.Sprintf("%s entry%d", desc, ei), Msg: m})
+				emit(kase{Family: "name:via-opaque-region", Desc: fmt.Sprintf("%s entry%d", desc, ei), Msg: m})
 			}
 		})
 		// the 12 header bytes as compression targets: ID / flags / counts that read as pointers or labels
@@ -186,9 +185,9 @@ func generate(thorough bool) []kase {
 				h := hdr(1, 0, 0, 0)
 				h[0], h[1] = byte(id>>8), byte(id)
 				m := append(h, 0xc0, ptr, 0, 1, 0, 1)
-				out = append(out, kase{Family: "name:pointer-into-header", Desc: fmt.Sprintf("id=%04x ptr=%d", id, ptr), Msg: m})
+				emit(kase{Family: "name:pointer-into-header", Desc: fmt.Sprintf("id=%04x ptr=%d", id, ptr), Msg: m})
 				m2 := append(append([]byte{}, h...), 1, 'a', 0xc0, ptr, 0, 1, 0, 1)
-				out = append(out, kase{Family: "name:pointer-into-header", Desc: fmt.Sprintf("id=%04x label+ptr=%d", id, ptr), Msg: m2})
+				emit(kase{Family: "name:pointer-into-header", Desc: fmt.Sprintf("id=%04x label+ptr=%d", id, ptr), Msg: m2})
 			}
 		}
 	}
@@ -220,21 +219,22 @@ func generate(thorough bool) []kase {
 			return append(m, rd...)
 		}
 		for cut := 0; cut <= len(r.rd); cut++ {
-			out = append(out, kase{Family: "rdata-cut:" + r.name, Desc: fmt.Sprint(cut), Msg: mk(r.rd[:cut], cut)})
-			out = append(out, kase{Family: "rdata-cut-lying-rdlen:" + r.name, Desc: fmt.Sprint(cut), Msg: mk(r.rd[:cut], len(r.rd))})
+			emit(kase{Family: "rdata-cut:" + r.name, Desc: fmt.Sprint(cut), Msg: mk(r.rd[:cut], cut)})
+			emit(kase{Family: "rdata-cut-lying-rdlen:" + r.name, Desc: fmt.Sprint(cut), Msg: mk(r.rd[:cut], len(r.rd))})
 		}
 		for i := range r.rd {
 			for _, d := range []int{-1, +1, 0x80} {
 				rd := append([]byte{}, r.rd...)
 				rd[i] = byte(int(rd[i]) + d)
-				out = append(out, kase{Family: "rdata-byte:" + r.name, Desc: fmt.Sprintf("byte%d%+d", i, d), Msg: mk(rd, len(rd))})
+				emit(kase{Family: "rdata-byte:" + r.name, Desc: fmt.Sprintf("byte%d%+d", i, d), Msg: mk(rd, len(rd))})
 			}
 		}
-		out = append(out, kase{Family: "rdata-rdlen:" + r.name, Desc: "+1", Msg: mk(r.rd, len(r.rd)+1)}, kase{Family: "rdata-rdlen:" + r.name, Desc: "65535", Msg: mk(r.rd, 65535)})
+		emit(kase{Family: "rdata-rdlen:" + r.name, Desc: "+1", Msg: mk(r.rd, len(r.rd)+1)})
+		emit(kase{Family: "rdata-rdlen:" + r.name, Desc: "65535", Msg: mk(r.rd, 65535)})
 	}
 	// (v) DoH response bodies: content-length missing / lying / over the cap, with bodies up to 8 MiB (see runCase)
 	for _, v := range []string{"no-length-1MiB", "no-length-8MiB", "length-65536", "length-70000", "length-negative", "length-garbage", "length-10-body-5", "length-5-body-1MiB", "length-65535-full"} {
-		out = append(out, kase{Family: "doh-body", Desc: v, Msg: append(hdr(1, 0, 0, 0), qA...)})
+		emit(kase{Family: "doh-body", Desc: v, Msg: append(hdr(1, 0, 0, 0), qA...)})
 	}
 	// (iii) header counts x number of records actually present
 	rrA := append([]byte{0xc0, 12}, append(rrFixed(1, 60, 4), 10, 0, 0, 1)...)
@@ -250,14 +250,14 @@ func generate(thorough bool) []kase {
 						for i := 0; i < present; i++ {
 							m = append(m, rrA...)
 						}
-						out = append(out, kase{Family: "header-counts", Desc: fmt.Sprintf("qd%d an%d ns%d ar%d present%d", qd, an, ns, ar, present), Msg: m})
+						emit(kase{Family: "header-counts", Desc: fmt.Sprintf("qd%d an%d ns%d ar%d present%d", qd, an, ns, ar, present), Msg: m})
 					}
 				}
 			}
 		}
 	}
 	for l := 0; l < 12; l++ {
-		out = append(out, kase{Family: "short-header", Desc: fmt.Sprint(l), Msg: hdr(1, 1, 1, 1)[:l]})
+		emit(kase{Family: "short-header", Desc: fmt.Sprint(l), Msg: hdr(1, 1, 1, 1)[:l]})
 	}
 	// (iv) scaling families
 	sizes := []int{64, 256, 1024, 4096, 16384}
@@ -287,7 +287,7 @@ func generate(thorough bool) []kase {
 			m = append(m, rrFixed(1, 1, 4)...)
 			m = append(m, 1, 2, 3, 4)
 			binary.BigEndian.PutUint16(m[6:], 2)
-			out = append(out, kase{Family: "scale:pointer-chain", Desc: fmt.Sprint(n), Msg: m, N: n})
+			emit(kase{Family: "scale:pointer-chain", Desc: fmt.Sprint(n), Msg: m, N: n})
 		}
 		// one name made of n/2 one-byte labels
 		{
@@ -295,7 +295,7 @@ func generate(thorough bool) []kase {
 			for len(m)+8 < n {
 				m = append(m, 1, 'x')
 			}
-			out = append(out, kase{Family: "scale:many-labels", Desc: fmt.Sprint(n), Msg: append(m, 0, 0, 1, 0, 1), N: n})
+			emit(kase{Family: "scale:many-labels", Desc: fmt.Sprint(n), Msg: append(m, 0, 0, 1, 0, 1), N: n})
 		}
 		// label chain (label + pointer to the previous chunk) of n/8 chunks, then records all pointing at the last chunk
 		{
@@ -315,7 +315,7 @@ func generate(thorough bool) []kase {
 				cnt++
 			}
 			binary.BigEndian.PutUint16(m[6:], uint16(cnt))
-			out = append(out, kase{Family: "scale:label-chain-x-records", Desc: fmt.Sprint(n), Msg: m, N: n})
+			emit(kase{Family: "scale:label-chain-x-records", Desc: fmt.Sprint(n), Msg: m, N: n})
 		}
 		// the classic loops, padded to n
 		for _, loop := range [][]byte{{1, 'a', 0xc0, 12}, {0xc0, 12}, {0xc0, 14, 0xc0, 12}, {1, 'a', 1, 'b', 0xc0, 14}} {
@@ -324,7 +324,7 @@ func generate(thorough bool) []kase {
 			for len(m) < n {
 				m = append(m, 0)
 			}
-			out = append(out, kase{Family: "scale:pointer-loop", Desc: fmt.Sprintf("%x n=%d", loop, n), Msg: m, N: n})
+			emit(kase{Family: "scale:pointer-loop", Desc: fmt.Sprintf("%x n=%d", loop, n), Msg: m, N: n})
 		}
 		// many SVCB params / many OPT options / many TXT strings
 		{
@@ -336,10 +336,9 @@ func generate(thorough bool) []kase {
 				rd = append(rd, byte(k>>8), byte(k), 0, 0)
 			}
 			m = append(m, rrFixed(65, 1, len(rd))...)
-			out = append(out, kase{Family: "scale:many-params", Desc: fmt.Sprint(n), Msg: append(m, rd...), N: n})
+			emit(kase{Family: "scale:many-params", Desc: fmt.Sprint(n), Msg: append(m, rd...), N: n})
 		}
 	}
-	return out
 }
 
 // ---- worker ----
@@ -492,7 +491,6 @@ func runCase(k kase, srv *dohmem.Server, res *ech.Resolver) (r workers.Result) {
 }
 
 func Worker(tier string, shard, n int) {
-	cases := generate(tier == "thorough")
 	srv := &dohmem.Server{}
 	dns.VerifRoundTripper = srv
 	res, err := ech.NewResolver("https://doh.test/dns-query")
@@ -500,24 +498,22 @@ func Worker(tier string, shard, n int) {
 		panic(err)
 	}
 	res.SetCacheSize(0)
-	workers.Serve(shard, n, len(cases), 15*time.Second,
-		func(idx int) any {
-			k := cases[idx]
-			return map[string]any{"family": k.Family, "desc": k.Desc, "message": fmt.Sprintf("%x", k.Msg[:min(len(k.Msg), 600)]), "len": len(k.Msg)}
-		},
-		func(idx int) workers.Result {
-			srv.Reset()
-			return runCase(cases[idx], srv, res)
+	workers.ServeIter(shard, n, 15*time.Second, func(yield func(describe func() any, run func() workers.Result)) {
+		generate(tier == "thorough", func(k kase) {
+			yield(func() any {
+				return map[string]any{"family": k.Family, "desc": k.Desc, "message": fmt.Sprintf("%x", k.Msg[:min(len(k.Msg), 600)]), "len": len(k.Msg)}
+			}, func() workers.Result {
+				srv.Reset()
+				return runCase(k, srv, res)
+			})
 		})
+	})
 }
 
 func Run(r *ev.Run) {
 	r.Rule("grammar-bounded exhaustive enumeration (E1) in 16 single-threaded worker processes under ulimit -v 3 GiB with a 15 s per-case watchdog: (i) every string of <=4 (thorough 5; question position one more) name tokens out of {label 'a', 63-byte label, end, pointer to self / forward / header offset 0 / header offset 11 / question name / middle of the question label / past the end / first earlier token / previous token, 0x40 and 0x80 prefixes, half a pointer} in every name position: question, owner, and inside the RDATA of NS, CNAME, PTR, MX, SOA, SRV, SVCB, HTTPS, NSEC, RRSIG with rdlength true/-1/+1; (ii) for 18 RDATA layouts every truncation (honest and lying rdlength), every byte +-1/+128, rdlength +1/65535; (iii) header counts {0,1,2,65535}x{0,1,2,65535}x{0,1,65535}^2 x 0..3 records present, short headers; (iv) scaling families at n in {64..16384 (thorough 65535)}: pointer chains, n/2 labels, label chain x n/16 records, pointer loops, n/4 parameters. Oracles: returns (watchdog), TotalAlloc delta <= 256KiB+512n+n^2/2, Go type of Data matches Type, and the decoded message served as DoH body to Resolver.Resolve (+Targets) for every name it mentions does not panic. distinct = distinct message byte strings")
 	r.Assume("arbitrary byte noise outside the token grammar is not explored", "allocation measured as runtime TotalAlloc delta with GOMAXPROCS=1 in the worker")
-	cases := generate(r.Thorough())
-	for _, k := range cases {
-		r.Eval(string(k.Msg), "")
-	}
+	generate(r.Thorough(), func(k kase) { r.Eval(k.Family+"|"+string(k.Msg), "") })
 	done, total := workers.Spawn(r, "C12", 3*1024*1024)
 	r.Set("cases", total)
 	r.Set("cases_executed_by_workers", done)
